@@ -18,6 +18,7 @@ import (
 	"bytes"
 	"fmt"
 	"math"
+	"slices"
 	"strings"
 
 	"github.com/go-enry/go-enry/v2"
@@ -218,11 +219,8 @@ func (p *contentProvider) scoreLineBM25(ms []*candidateMatch, lineNumber int) (f
 	lineLength := nl.lineStart(lineNumber+1) - nl.lineStart(lineNumber)
 	L := float64(lineLength) / 100.0
 
-	score := 0.0
 	tfs := p.calculateTermFrequency(ms, false) // ignore file priority, since we're just scoring within a single file
-	for _, f := range tfs {
-		score += tfScore(k, b, L, f)
-	}
+	score, _ := sumTFScores(k, b, L, tfs)
 
 	// Check if any index comes from a symbol match tree, and if so hydrate in symbol information
 	var symbolInfo []*zoekt.Symbol
@@ -239,6 +237,22 @@ func (p *contentProvider) scoreLineBM25(ms []*candidateMatch, lineNumber int) (f
 
 	score = boostScore(score, ms)
 	return score, symbolInfo
+}
+
+// sumTFScores sums tfScore over all term frequencies. Floating point addition
+// is not associative and map iteration order is random, so the frequencies
+// are added in sorted order to make the score of a file reproducible.
+func sumTFScores(k float64, b float64, L float64, tfs map[string]int) (score float64, sumTF int) {
+	fs := make([]int, 0, len(tfs))
+	for _, f := range tfs {
+		fs = append(fs, f)
+	}
+	slices.Sort(fs)
+	for _, f := range fs {
+		sumTF += f
+		score += tfScore(k, b, L, f)
+	}
+	return score, sumTF
 }
 
 // tfScore is the term frequency score for BM25.
@@ -379,12 +393,7 @@ func (d *indexData) scoreFileBM25(fileMatch *zoekt.FileMatch, doc uint32, cands 
 
 	L := fileLength / averageFileLength
 
-	bm25Score := 0.0
-	sumTF := 0 // Just for debugging
-	for _, f := range tf {
-		sumTF += f
-		bm25Score += tfScore(k, b, L, f)
-	}
+	bm25Score, sumTF := sumTFScores(k, b, L, tf) // sumTF is just for debugging
 
 	score := boostScore(bm25Score, cands)
 	boosted := score != bm25Score
